@@ -95,6 +95,12 @@ def gen_client(rng, j, libs):
             pool = [m["name"] for m in lib["macros"]]
             chosen = rng.sample(pool, rng.randint(1, len(pool)))
             r["names"] = [[n, (rng.choice(["al-", "z"]) + n.strip("_")) if rng.random() < 0.4 else None] for n in chosen]
+            if rng.random() < 0.35:
+                # the same macro again under another alias
+                n = rng.choice(chosen)
+                r["names"].insert(rng.randrange(len(r["names"]) + 1), [n, "dup-" + n.strip("_")])
+                if rng.random() < 0.4:
+                    r["names"].append([n, "dup2-" + n.strip("_")])
         if lib["readers"] and rng.random() < 0.6:
             r["readers"] = rng.choice(["*", lib["readers"][:1], lib["readers"]])
         reqs.append(r)
@@ -104,7 +110,7 @@ def gen_client(rng, j, libs):
 
 def generate(rng, tier):
     if rng.random() < 0.12:
-        return {"kind": "ext", "exts": rng.sample([".hy", "", ".txt", ".hyx", ".py", ".data"], 4),
+        return {"kind": "ext", "exts": rng.sample([".hy", "", ".txt", ".hyx", ".py", ".data", ".PY", ".Py", ".hY", ".py3", ".pyx"], 5),
                 "opt": rng.choice([0, 0, 1, 2]), "val": rng.randrange(1000)}
     libs = [gen_lib(rng, i) for i in range(rng.choice([1, 1, 2]))]
     clients = [gen_client(rng, j, libs) for j in range(rng.choice([1, 1, 2]))]
@@ -116,8 +122,11 @@ def generate(rng, tier):
             ops.append({"op": "import", "client": rng.randrange(len(clients))})
         elif r < 0.52:
             ops.append({"op": "touch", "mod": rng.choice(mods)})
-        elif r < 0.64:
+        elif r < 0.6:
             ops.append({"op": "edit", "mod": rng.choice(mods)})
+        elif r < 0.64:
+            ops.append({"op": rng.choice(["lib_add", "lib_add", "lib_remove", "lib_exports"]), "lib": rng.randrange(len(libs)),
+                        "pick": rng.randrange(1000)})
         elif r < 0.72:
             ops.append({"op": "rm_pyc", "mod": rng.choice(mods)})
         elif r < 0.8:
@@ -150,9 +159,10 @@ def lib_text(tag, i, lib):
 
 
 def macro_value(i, lib, name, ver, arg=None):
-    m = [m for m in lib["macros"] if m["name"] == name][0]
+    """lib: a lib spec, or a frozen {(lib index, macro name): kind} map."""
+    kind = lib[(i, name)] if "macros" not in lib else [m for m in lib["macros"] if m["name"] == name][0]["kind"]
     s = f"lib{i}:{name}:v{ver}"
-    return s if m["kind"] == "const" else [arg, s]
+    return s if kind == "const" else [arg, s]
 
 
 def exported(lib):
@@ -211,7 +221,9 @@ def client_text(tag, desc, j, cl):
         else:
             out.append(f"(require {lname}{spec}{rd})")
     k = 0
-    for call, li, n in client_macros(tag, desc, cl):
+    cl["_uses"] = list(client_macros(tag, desc, cl))
+    cl["_ruses"] = list(client_readers(tag, desc, cl))
+    for call, li, n in cl["_uses"]:
         lib = desc["libs"][li]
         m = [m for m in lib["macros"] if m["name"] == n][0]
         form = f"({call})" if m["kind"] == "const" else f"({call} {k})"
@@ -220,11 +232,12 @@ def client_text(tag, desc, j, cl):
         else:
             out.append(f"(setv u{k} {form})")
         k += 1
-    for q, (rn, li) in enumerate(client_readers(tag, desc, cl)):
+    for q, (rn, li) in enumerate(cl["_ruses"]):
         out.append(f"(setv rd{q} #{rn})")
     if cl["own_macro"]:
         out.append(f'(defmacro own{j} [] "cli{j}:own:v{cl["ver"]}")')
         out.append(f"(setv ownval (own{j}))")
+    cl["_local"] = None
     if cl["local_require"] and cl["requires"]:
         r = cl["requires"][0]
         lib = desc["libs"][r["lib"]]
@@ -233,7 +246,10 @@ def client_text(tag, desc, j, cl):
             m = [m for m in lib["macros"] if m["name"] == n[0]][0]
             form = f"(loc.{n[0]})" if m["kind"] == "const" else f"(loc.{n[0]} 77)"
             out.append(f"(defn localreq [] (require {tag}lib{r['lib']} :as loc) {form})")
+            cl["_local"] = [r["lib"], n[0]]
     out.append(f'(setv plain {cl["ver"] * 7})')
+    cl["_textver"] = cl["ver"]
+    cl["_kinds"] = {(li, m["name"]): m["kind"] for li, lib in enumerate(desc["libs"]) for m in lib["macros"]}
     return "\n".join(out) + "\n"
 
 
@@ -241,20 +257,18 @@ def expected_client_values(tag, desc, cl, libvers):
     """libvers: version of each lib at the time this client was compiled."""
     vals = {}
     k = 0
-    for call, li, n in client_macros(tag, desc, cl):
-        v = macro_value(li, desc["libs"][li], n, libvers[li], k)
+    for call, li, n in cl["_uses"]:
+        v = macro_value(li, cl["_kinds"], n, libvers[li], k)
         vals[("f%d()" if (cl["in_fn"] and k % 2) else "u%d") % k] = v
         k += 1
-    for q, (rn, li) in enumerate(client_readers(tag, desc, cl)):
+    for q, (rn, li) in enumerate(cl["_ruses"]):
         vals["rd%d" % q] = f"lib{li}:{rn}:v{libvers[li]}"
     if cl["own_macro"]:
-        vals["ownval"] = f"cli{desc['clients'].index(cl)}:own:v{cl['ver']}"
-    if cl["local_require"] and cl["requires"]:
-        r = cl["requires"][0]
-        n = exported(desc["libs"][r["lib"]])
-        if n:
-            vals["localreq()"] = macro_value(r["lib"], desc["libs"][r["lib"]], n[0], libvers[r["lib"]], 77)
-    vals["plain"] = cl["ver"] * 7
+        vals["ownval"] = f"cli{desc['clients'].index(cl)}:own:v{cl['_textver']}"
+    if cl.get("_local"):
+        li, n = cl["_local"]
+        vals["localreq()"] = macro_value(li, cl["_kinds"], n, libvers[li], 77)
+    vals["plain"] = cl["_textver"] * 7
     return vals
 
 
@@ -437,6 +451,48 @@ def execute(desc):
                 pyc_valid[k] = False
                 events.append([oi, kind, op["mod"]])
                 seq.append((kind, op["mod"][:3]))
+            elif kind in ("lib_add", "lib_remove", "lib_exports"):
+                li = op["lib"] % len(libs)
+                lib = libs[li]
+                used = {n for c in clients for (_, l2, n) in c.get("_uses", []) if l2 == li}
+                used |= {n for c in clients for r in c["requires"] if r["lib"] == li for n, _ in r.get("names", [])}
+                used |= {c["_local"][1] for c in clients if c.get("_local") and c["_local"][0] == li}
+                changed = False
+                if kind == "lib_add":
+                    nm = "%snew%d" % ("ab"[li], lib["ver"] + len(lib["macros"]))
+                    if op["pick"] % 3 == 0:
+                        nm = "_" + nm
+                    lib["macros"] = lib["macros"] + [{"name": nm, "kind": "const"}]
+                    if lib["exports"] is not None and op["pick"] % 2:
+                        lib["exports"] = lib["exports"] + [nm]
+                    changed = True
+                elif kind == "lib_remove":
+                    removable = [m for m in lib["macros"] if m["name"] not in used]
+                    if removable and len(lib["macros"]) > 1:
+                        victim = removable[op["pick"] % len(removable)]
+                        lib["macros"] = [m for m in lib["macros"] if m is not victim]
+                        if lib["exports"] is not None:
+                            lib["exports"] = [n for n in lib["exports"] if n != victim["name"]] or None
+                        changed = True
+                else:
+                    allnames = [m["name"] for m in lib["macros"]]
+                    if lib["exports"] is None:
+                        # explicit list: everything the clients use stays exported; unused ones may be hidden, private ones shown
+                        keep = [n for n in allnames if n in used and not n.startswith("_")]
+                        extra = [n for n in allnames if n not in keep and (op["pick"] >> (allnames.index(n) % 8)) & 1]
+                        lib["exports"] = keep + extra or allnames[:1]
+                        changed = True
+                    elif not [n for n in used if n.startswith("_")]:
+                        lib["exports"] = None   # would hide a private macro the clients' texts use otherwise
+                        changed = True
+                if changed:
+                    lib["ver"] += 1
+                    W.write(names[("lib", li)], lib_text(tag, li, lib))
+                    pyc_valid[("lib", li)] = False
+                    faults["source_edited"] += 1
+                    probes["structural_lib_edits"] = probes.get("structural_lib_edits", 0) + 1
+                events.append([oi, kind, li, changed])
+                seq.append((kind, changed))
             elif kind == "rm_pyc":
                 k = modkey(op["mod"])
                 if k in names and W.delete_pyc(names[k]):
